@@ -150,7 +150,7 @@ def apalache(d, inv, timeout):
 def tlc_replay(d, module, cfg, tag, workers, timeout):
     """Run TLC on module/cfg and stream its CASE lines into `ykh resarith`; -> (summary dict, mismatches, (generated, distinct))."""
     log, mm, meta = [os.path.join(d, tag + s) for s in (".tlc.log", ".mismatch.ndjson", ".meta")]
-    java = ["java", "-Xmx6g", "-Xss64m", "-XX:+UseParallelGC", "-cp", C.JAR, "tlc2.TLC", "-workers", str(workers), "-metadir", meta,
+    java = ["java", "-Xmx6g", "-Xss64m", "-XX:+UseParallelGC", "-Djava.io.tmpdir=" + d, "-cp", C.JAR, "tlc2.TLC", "-workers", str(workers), "-metadir", meta,
             "-config", cfg, module]
     ykh = [C.VERIF + "/.build/ykh", "resarith", "-cases", "-", "-out", mm, "-log", log]
     p1 = subprocess.Popen(java, cwd=d, stdout=subprocess.PIPE, stderr=subprocess.STDOUT)
